@@ -100,7 +100,14 @@ pub fn lib_format(kind: Kind, i: i128, off: i32, pattern: &str) -> String {
 }
 
 pub fn gen_fmt_value(rng: &mut Rng) -> (i128, i32) {
-    let i = match rng.below(8) {
+    let i = match rng.below(9) {
+        8 => {
+            // where the year gains a digit: the first / last days of years ±10^k and ±(10^k − 1) (10000-01-01 is the
+            // first date whose year does not fit yyyy), a year either side
+            let k = rng.range_i64(1, 6) as u32;
+            let a = *rng.pick(&[1i64, -1]) * (10i64.pow(k) - rng.range_i64(0, 1));
+            (cal::days_from_civil(a, 1, 1) + rng.range_i64(-400, 400)) as i128 * D + rng.range_i128(0, D - 1)
+        }
         0 => {
             // 5–7 digit years, both eras
             let a = *rng.pick(&[1i64, -1]) * rng.range_i64(10_000, 5_800_000);
